@@ -304,7 +304,14 @@ func genRef(r *Rand, p *Plan, tier string, focus string) {
 			// a used sequence number replayed inside a multi-packet login
 			for _, sc := range scripts {
 				if sc.Tag == "ascii" && len(sc.Pkts) >= 3 {
-					sc.Pkts[2].Seq = PickOf(r, sc.Pkts[1].Seq, sc.Pkts[0].Seq, sc.Pkts[1].Seq-2)
+					if r.Chance(35) && sc.Pkts[1].Seq < 250 {
+						// an even number inside a live exchange: above everything seen so far,
+						// or the number of the reply just received
+						k := 1 + r.Intn(2)
+						sc.Pkts[k].Seq = sc.Pkts[k-1].Seq + PickOf(r, uint8(3), 3, 1, 5)
+					} else {
+						sc.Pkts[2].Seq = PickOf(r, sc.Pkts[1].Seq, sc.Pkts[0].Seq, sc.Pkts[1].Seq-2)
+					}
 					break
 				}
 			}
